@@ -14,7 +14,8 @@ COSTS12 = COSTS8 + [(2, 3, 7, 1), (5, 2, 3, 3), (1, 4, 10, 10), (4, 1, 1, 9)]
 
 
 # fractional cost vectors, written as integers over a common scale: (uf, ub, wd, rd, scale)
-FRAC = [(10, 10, 1, 1, 10), (5, 2, 1, 1, 10), (10, 10, 5, 25, 10), (30, 10, 1, 1, 10), (10, 10, 25, 0, 10)]
+FRAC = [(10, 10, 1, 1, 10), (5, 2, 1, 1, 10), (10, 10, 5, 25, 10), (30, 10, 1, 1, 10), (10, 10, 25, 0, 10),
+        (1, 4, 1, 1, 4), (4, 10, 0, 15, 10)]     # uf = 0.25 and uf = 0.4
 
 
 def cv(c):
@@ -118,9 +119,9 @@ def sparse_large():
         for s in (1, 2, 3, 5, 8):
             for st in (0, 1):
                 out.append(mkcfg("Mixed", max_n=n, ram=s, st=st))
-    for n in (15, 19):
+    for n in (13, 15, 19):
         for cm in (1, 2, 3):
-            for c in (COSTS8[0], COSTS8[2], COSTS8[6], FRAC[0]):
+            for c in (COSTS8[0], COSTS8[2], COSTS8[6], COSTS8[7], FRAC[0]):
                 for cls in ("Revolve", "DiskRevolve", "PeriodicDiskRevolve"):
                     out.append(mkcfg(cls, max_n=n, ram=cm, **cv(c)))
                 for cd in (1, 2):
